@@ -49,6 +49,8 @@ PROPERTY_CLAUSES = ('param_set', 'draw_initial_delay', 'draw_first_gap', 'count'
                     'doubling_capped', 'own_id_known', 'loopback_ignored', 'transmit_count')
 KINDS = {'multicast': ['Probe', 'Resolve', 'Hello', 'Bye', 'direct'],
          'unicast': ['ProbeMatch', 'ResolveMatch', 'direct']}
+# a sender call that queues a block of messages (one ProbeMatch per matching service): schedule part only
+BLOCK_KINDS = {'unicast': ['ProbeMatch3']}
 ALL_KINDS = [('multicast', k) for k in KINDS['multicast']] + [('unicast', k) for k in KINDS['unicast']]
 RELATES_TO = 'urn:uuid:aaaaaaaa-2222-3333-4444-555555555555'
 
@@ -70,14 +72,16 @@ class DrawStub:
 
     def _draw(self, lo, hi):
         i = len(self.calls)
-        if i >= 2:
-            raise MachineryError('harness assumption broken: more than two random draws for one message')
+        if i >= 40:
+            raise MachineryError('harness assumption broken: more than 40 random draws for one sender call')
         if hi < lo:
             raise MachineryError(f'random draw #{i + 1} with empty range [{lo}, {hi}]')
         self.calls.append((lo, hi))
         if self.plan == 'free':
             return self._rng.randint(lo, hi)
-        v = self.plan[i]
+        # draws alternate: initial delay, first gap (a sender that queues several messages draws once per message -
+        # or shares draws between them; either way every message has to keep the envelope)
+        v = self.plan[i % 2]
         if v is None:
             return lo
         if not lo <= v <= hi:
@@ -189,6 +193,10 @@ class Env:
         scopes = wsd_types.ScopesType('sdc.ctxt.loc:/sdc.ctxt.loc.detail/a%2Fb%2Fc?fac=a')
         self.service = Service(list(SdcV1Definitions.MedicalDeviceTypesFilter), scopes, ['http://127.0.0.1:5555/x'],
                                'urn:uuid:11111111-2222-3333-4444-555555555555', '12345')
+        # two more services of the same node: one Probe is answered with one ProbeMatch message per matching service
+        self.services3 = [self.service] + [
+            Service(list(SdcV1Definitions.MedicalDeviceTypesFilter), scopes, [f'http://127.0.0.1:555{n}/x'],
+                    f'urn:uuid:11111111-2222-3333-4444-55555555555{n}', '12345') for n in (6, 7)]
 
     def __enter__(self):
         self.ntm.random, self.ntm.time = self.rnd, self.clock
@@ -263,6 +271,8 @@ class Node:
             wsd._send_bye(env.service)
         elif kind == 'ProbeMatch':
             wsd._send_probe_match([env.service], RELATES_TO, (IP, 4000))
+        elif kind == 'ProbeMatch3':
+            wsd._send_probe_match(list(env.services3), RELATES_TO, (IP, 4000))
         elif kind == 'ResolveMatch':
             wsd._send_resolve_match(env.service, RELATES_TO, (IP, 4000))
         elif kind == 'direct':
@@ -284,6 +294,13 @@ class Node:
         if len({id(e.msg) for e in entries}) > 1:
             raise MachineryError('harness assumption broken: one sender call queued more than one message')
         return entries
+
+    def queued_groups(self):
+        """Entries on the send queue in transmission order, one list per queued message."""
+        groups = {}
+        for e in sorted(self.nt._send_queue.queue):
+            groups.setdefault(id(e.msg), []).append(e)
+        return list(groups.values())
 
     def drain(self):
         q = self.nt._send_queue
@@ -316,33 +333,42 @@ class Node:
 
 
 # --------------------------------------------------------------------------- part (a): schedule
-def run_case(env: Env, node: Node, case: dict, kind: str, with_tx: bool) -> dict:
+def run_case(env: Env, node: Node, case: dict, kind: str, with_tx: bool) -> list[dict]:
     ps = case['ps']
     env.rnd.arm(case['d0'], case['g'])
     env.clock.now = NOW
     node.last_params = None
     node.send(ps, kind)
-    if len(env.rnd.calls) != 2:
+    if len(env.rnd.calls) < 2:
         raise MachineryError(f'harness assumption broken: {len(env.rnd.calls)} random draws instead of 2')
     if env.rnd.clamped:
         raise MachineryError(f'case {case} is not a possible outcome of the draws {env.rnd.calls}')
-    if node.last_params is None:
-        raise MachineryError(f'sender {kind} did not call add_outbound_message')
-    entries = node.queued()
-    rec = {'ps': ps, 'kind': kind, 'd0': case['d0'], 'g': case['g'], 'cfg': params_dict(node.last_params),
-           'draw': {'d0lo': env.rnd.calls[0][0], 'd0hi': env.rnd.calls[0][1],
-                    'glo': env.rnd.calls[1][0], 'ghi': env.rnd.calls[1][1]},
-           'off': [_us(e.send_time - NOW) for e in entries], 'known': True, 'loop': 'ignored', 'tx': -1}
-    if entries:
-        msg = entries[0].msg
-        rec['ps'] = 'multicast' if msg.addr == env.mc_addr else 'unicast'
-        mid = msg.created_message.p_msg.header_info_block.MessageID
-        rec['known'] = mid in node.nt._known_message_ids
-        rec['loop'] = node.feed(msg.created_message.serialize())
-        if with_tx:
-            rec['tx'] = node.transmit_all(mid)
+    groups = node.queued_groups()
+    recs = []
+    for gi, entries in enumerate(groups or [[]]):
+        # the parameter set is the one the module configures for the destination (the spy only confirms it when the
+        # sender went through add_outbound_message)
+        cfg_obj = node.last_params
+        if entries:
+            cfg_obj = env.ntm.MULTICAST_REPEAT_PARAMS if entries[0].msg.addr == env.mc_addr else env.ntm.UNICAST_REPEAT_PARAMS
+        if cfg_obj is None:
+            raise MachineryError(f'sender {kind} queued nothing')
+        rec = {'ps': ps, 'kind': kind, 'd0': case['d0'], 'g': case['g'], 'cfg': params_dict(cfg_obj),
+               'draw': {'d0lo': env.rnd.calls[0][0], 'd0hi': env.rnd.calls[0][1],
+                        'glo': env.rnd.calls[1][0], 'ghi': env.rnd.calls[1][1]},
+               'off': [_us(e.send_time - NOW) for e in entries], 'known': True, 'loop': 'ignored', 'tx': -1,
+               'nth': gi}
+        if entries:
+            msg = entries[0].msg
+            rec['ps'] = 'multicast' if msg.addr == env.mc_addr else 'unicast'
+            mid = msg.created_message.p_msg.header_info_block.MessageID
+            rec['known'] = mid in node.nt._known_message_ids
+            rec['loop'] = node.feed(msg.created_message.serialize())
+            if with_tx and len(groups) == 1:
+                rec['tx'] = node.transmit_all(mid)
+        recs.append(rec)
     node.drain()
-    return rec
+    return recs
 
 
 def _us(seconds: float) -> int:
@@ -356,7 +382,7 @@ def probe_ranges(env: Env, node: Node) -> dict:
     for ps, kinds in KINDS.items():
         env.rnd.arm(None, None)
         node.send(ps, kinds[0])
-        if len(env.rnd.calls) != 2:
+        if len(env.rnd.calls) < 2:
             raise MachineryError(f'harness assumption broken: {len(env.rnd.calls)} random draws instead of 2')
         out[ps] = {'d0': env.rnd.calls[0], 'g': env.rnd.calls[1]}
         node.drain()
@@ -456,12 +482,14 @@ def schedule_part(run, env: Env, only_cases: list | None = None):
                 infeasible += 1  # inside the configured window but never drawn by the code (e.g. randrange excludes max)
                 continue
             kind = case.get('kind') or KINDS[ps][counters[ps] % len(KINDS[ps])]
+            if not case.get('kind') and ps in BLOCK_KINDS and counters[ps] % 7 == 3:
+                kind = BLOCK_KINDS[ps][0]
             counters[ps] += 1
-            rec = run_case(env, node, case, kind, with_tx=(i % tx_every == 0) or bool(case.get('tx')))
-            kinds_used[kind] = kinds_used.get(kind, 0) + 1
-            records.append(rec)
-            kept.append(case)
-            run.distinct_traces.add((rec['ps'], rec['d0'], rec['g']))
+            for rec in run_case(env, node, case, kind, with_tx=(i % tx_every == 0) or bool(case.get('tx'))):
+                kinds_used[kind] = kinds_used.get(kind, 0) + 1
+                records.append(rec)
+                kept.append(case)
+                run.distinct_traces.add((rec['ps'], rec['d0'], rec['g']))
         run.evaluations += len(records)
         run.note('outcomes_in_window_never_drawn_by_code', infeasible)
         run.note('cases_per_sender', kinds_used)
